@@ -147,7 +147,7 @@ def run_pooled(harnesses: list, tier: str, seed: int, jobs: int, cpu_total: floa
         tasks.extend(h.tasks(tier, seed))
     # most shards finish far below their budget, so the floor keeps the big ones exhaustive; the worst case (every shard at its
     # budget) stays bounded by floor * shards / cores
-    floor = 90.0 if tier == "quick" else 120.0
+    floor = float(os.environ.get("VF_FLOOR", 90.0 if tier == "quick" else 120.0))  # VF_FLOOR: smoke runs of the thorough tier (every shard, a few seconds each)
     cap = max(floor, float(os.environ.get("VF_CPU_TOTAL", cpu_total or TIER_CPU[tier])) / max(1, len(tasks)))
     for h in harnesses:
         h._budget_cap = cap
